@@ -65,7 +65,7 @@ def histories(res, rng, n, maxops):
 def correspond(res, tier):
     rng = seed_rng(res.seed, 'C19')
     batch = Batch()
-    n = 24 if tier == 'quick' else 240
+    n = 60 if tier == 'quick' else 400
     for h, glue, X, T, bias, sigma, L in histories(res, rng, n, 14 if tier == 'quick' else 40):
         def gen(pm, k, L=L, bias=bias, sigma=sigma):
             if k < L:
@@ -97,7 +97,7 @@ def correspond(res, tier):
 
 def search(res, tier, boost=False):
     rng = seed_rng(res.seed, 'C19s')
-    n = (30 if tier == 'quick' else 400) * (3 if boost else 1)
+    n = (80 if tier == 'quick' else 800) * (3 if boost else 1)
     signal.signal(signal.SIGALRM, _alarm)
     todo = [(-1 - i, c[0], c[1], c[2], None, c[4], c[3]) for i, c in enumerate(CORPUS)]
     todo += list(histories(res, rng, n, 25 if tier == 'quick' else 200))
